@@ -289,6 +289,33 @@ def _own_cjson(units, r):
     r.floor('OWN1', 'functions examined for NULL use in cJSON.c', len([o for o in r.obs if o.rule == 'OWN1']), 45)
 
 
+def run_C09(ctx, R):
+    from .rules import outbuf, outsym, bnd
+    _per_config(ctx, R, outbuf.out1)
+    _per_config(ctx, R, outsym.out23)
+    _per_config(ctx, R, outbuf.out4)
+    _per_config(ctx, R, bnd.bnd4_all)
+    _per_config(ctx, R, outbuf.tab5bc)
+
+
+def run_C04(ctx, R):
+    from .rules import outbuf, outsym
+    _per_config(ctx, R, outbuf.tab5bc)
+    _per_config(ctx, R, outbuf.out1)
+    _per_config(ctx, R, outsym.out23)
+    _per_config(ctx, R, outbuf.tab2_print)
+
+
+def run_C05(ctx, R):
+    from .rules import outbuf, tree
+    _per_config(ctx, R, outbuf.tab2_print)
+    _per_config(ctx, R, outbuf.tab15)
+    _per_config(ctx, R, _only_functions(tree.tab3, {'print_value'}, 'TAB3', 3))
+    _per_config(ctx, R, outbuf.tab5bc)
+    _per_config(ctx, R, outbuf.tab16)
+    _per_config(ctx, R, outbuf.print_literals)
+
+
 def run_C02(ctx, R):
     from .rules import parse, lst
     _per_config(ctx, R, parse.tab2_parse)
@@ -332,6 +359,49 @@ def run_C08(ctx, R):
 
 
 PROPERTIES = {
+    'C04': {
+        'run': run_C04, 'modules': ['print', 'tables'],
+        'explanation':
+            "Writer/reader agreement and buffer independence only; numbers are NOT decided. TAB5c: every escape letter the "
+            "printer can emit is decoded by the parser to the byte it stands for (both tables extracted, printer checked against "
+            "RFC 8259). TAB5b: for every byte value 1..255 the counting pass reserves exactly what the emitting pass writes, so "
+            "the closing quote lands where it should; quote, backslash and all control bytes are escaped and nothing else is. "
+            "OUT1/OUT2: every output write goes through an ensure() result and stays within the request. OUT3: at every next "
+            "request/printer call the offset has been advanced by exactly the bytes written before the terminator, which is "
+            "the condition under which ensure()'s realloc branch and its allocate+memcpy(offset+1)+free branch preserve the "
+            "same bytes (independence from realloc availability and from the initial buffer size). TAB2: print() returns "
+            "blocks of the same size from both arms of its final shrink/copy.",
+        'not_decided': ['numeric round trip: %1.15g / %1.17g, the DBL_MAX -> inf case named in the property, -0.0',
+                        'fixed point of print(parse(.)) as a value', 'shape/order/keys preservation beyond the table agreement'],
+    },
+    'C05': {
+        'run': run_C05, 'modules': ['print', 'tree'],
+        'explanation':
+            "TAB2: Print, PrintUnformatted, PrintBuffered and PrintPreallocated all reach the one print_value with the caller's "
+            "item and differ only in buffer set-up; the two plain variants pass format = 1 / 0. TAB15: statements controlled by "
+            "->format store only ' ', tab or newline, call nothing, and format otherwise only selects lengths - so the formatted "
+            "text minus that whitespace is the unformatted text as far as control structure goes. TAB3: print_value switches on "
+            "the masked kind, covers all eight kinds and refuses anything else. TAB5b: every control byte goes to the switch "
+            "whose default arm writes \\u00XX; quote and backslash are escaped. TAB16: print_number (and parse_number) "
+            "substitute the locale's decimal point. LIT: the literals written are exactly null, false, true with requests of "
+            "their length plus terminator.",
+        'not_decided': ['acceptance by an independent strict parser', 'non-finite numbers print as null (a value predicate)',
+                        'integer formatting (%d arm condition is numeric)'],
+    },
+    'C09': {
+        'run': run_C09, 'modules': ['print', 'parse'],
+        'explanation':
+            "OUT1: in the print family every pointer written through is an ensure() result (or arithmetic on one); the buffer "
+            "is never written through p->buffer. OUT2: path enumeration with linear symbolic state over every printing function "
+            "shows, for each of the 15 ensure(p, N) sites and each assignment of the boolean atoms (format, next != NULL, ...), "
+            "that the bytes stored through the returned pointer before the next request never exceed N (counting loops "
+            "summarised as their bound, the escaping loop discharged by TAB5b). OUT4: ensure returns a pointer into the "
+            "existing buffer only under needed + offset + 1 <= length, refuses offset >= length and needed > INT_MAX first, and "
+            "reaches its allocator calls only when noalloc is clear; cJSON_PrintPreallocated stores the caller's buffer and "
+            "length, offset 0 and noalloc = true; nobody but ensure touches buffer/length/noalloc afterwards. BND4: the number "
+            "scratch buffer and its sprintf formats fit. Together every store index is < offset + N + 1 <= length.",
+        'not_decided': ["'returns true only if complete' and monotonicity in n (values)", 'the +5 sufficiency margin'],
+    },
     'C02': {
         'run': run_C02, 'modules': ['parse', 'tables', 'utils'],
         'explanation':
